@@ -21,7 +21,7 @@ ISA = {
 }
 ALL_ISAS = list(ISA.keys())
 
-CTYPE = {'f32': 'float', 'f64': 'double', 'i32': 'int', 'i64': 'long long', 'c64': 'std::complex<float>', 'c128': 'std::complex<double>',
+CTYPE = {'f32': 'float', 'f64': 'double', 'i32': 'int', 'i64': 'int64_t', 'c64': 'std::complex<float>', 'c128': 'std::complex<double>',
          'u64': 'unsigned long', 'bool': 'bool', 'i8': 'signed char', 'u8': 'unsigned char', 'i16': 'short'}
 # element type of the underlying scalar cells and cells per element
 CELL = {'f32': ('f32', 1), 'f64': ('f64', 1), 'i32': ('i32', 1), 'i64': ('i64', 1), 'c64': ('f32', 2), 'c128': ('f64', 2), 'bool': ('bool', 1), 'u64': ('i64', 1),
@@ -156,6 +156,9 @@ class Runner:
         self.broken = []           # analysis-broken reasons
 
     def cleanup(self):
+        if os.environ.get('VERIF_KEEP'):
+            print('kept scratch directory', self.tmp)
+            return
         shutil.rmtree(self.tmp, ignore_errors=True)
 
     def _tu_text(self, wits, which, dead=()):
@@ -277,7 +280,7 @@ class Runner:
             out.append(r)
         for f in (base + '_wit.bc', base + '_ref.bc', base + '_wit.cpp', base + '_ref.cpp', sp):
             try:
-                os.remove(f)
+                os.environ.get("VERIF_KEEP") or os.remove(f)
             except OSError:
                 pass
         return out
@@ -285,8 +288,13 @@ class Runner:
     def run_all(self, wits, configs, chunk=40):
         """wits: list of Witness (or callable cfg -> list); configs: list of Config"""
         jobs = []
+        only, only_cfg = os.environ.get('VERIF_ONLY'), os.environ.get('VERIF_ONLY_CFG')   # dev filters (regex on witness id / config name)
         for cfg in configs:
+            if only_cfg and not re.search(only_cfg, cfg.name):
+                continue
             ws = wits(cfg) if callable(wits) else wits
+            if only:
+                ws = [w for w in ws if re.search(only, w.id)]
             for c in range(0, len(ws), chunk):
                 jobs.append((ws[c:c + chunk], cfg, c // chunk))
         with ThreadPoolExecutor(max_workers=JOBS) as ex:
@@ -501,7 +509,8 @@ def finish(prop, tier, seed, runner, level, rule, trusted, floors=None, extra_co
     cov['undecided_obligations_not_counted'] = n_und_obl
     ev = {'property_id': prop, 'tier': tier, 'seed': seed, 'level': level, 'coverage': cov,
           'assumptions': assumptions or [], 'wall_s': round(time.time() - runner.t0, 2), 'violations': len(violations)}
-    json.dump(ev, open(os.path.join(VERIF, 'evidence', prop + '.json'), 'w'), indent=1)
+    if not os.environ.get('VERIF_NO_EVIDENCE'):   # dev runs against seeded changes must not overwrite the evidence of the real tree
+        json.dump(ev, open(os.path.join(VERIF, 'evidence', prop + '.json'), 'w'), indent=1)
     print('%s %s: %d witness instances, %d/%d obligations discharged, status %s, %.1fs, exit %d' % (prop, tier, len(res), n_ok, n_obl, by_status, time.time() - runner.t0, code))
     return code
 
